@@ -25,10 +25,18 @@ pub fn echo_mutations(objs: &[u8]) -> Vec<(String, Vec<u8>)> {
         let mut b = ra::B { bytes: vec![] };
         for h in hs {
             if h.qual == ra::Q_PREFIX8 {
-                let items: Vec<(u8, Vec<u8>)> = h.objs.iter().map(|o| (o.index.unwrap_or(0) as u8, o.bytes.clone())).collect();
+                let items: Vec<(u8, Vec<u8>)> = h
+                    .objs
+                    .iter()
+                    .map(|o| (o.index.unwrap_or(0) as u8, o.bytes.clone()))
+                    .collect();
                 b = b.prefixed8(h.group, h.var, &items);
             } else {
-                let items: Vec<(u16, Vec<u8>)> = h.objs.iter().map(|o| (o.index.unwrap_or(0) as u16, o.bytes.clone())).collect();
+                let items: Vec<(u16, Vec<u8>)> = h
+                    .objs
+                    .iter()
+                    .map(|o| (o.index.unwrap_or(0) as u16, o.bytes.clone()))
+                    .collect();
                 b = b.prefixed16(h.group, h.var, &items);
             }
         }
@@ -74,7 +82,11 @@ pub fn echo_mutations(objs: &[u8]) -> Vec<(String, Vec<u8>)> {
         }
         // other prefix width
         let mut m = hs.clone();
-        m[hi].qual = if h.qual == ra::Q_PREFIX8 { ra::Q_PREFIX16 } else { ra::Q_PREFIX8 };
+        m[hi].qual = if h.qual == ra::Q_PREFIX8 {
+            ra::Q_PREFIX16
+        } else {
+            ra::Q_PREFIX8
+        };
         if !(m[hi].qual == ra::Q_PREFIX8 && h.objs.iter().any(|o| o.index.unwrap_or(0) > 255)) {
             out.push((format!("prefix-width/h{hi}"), enc(&m)));
         }
@@ -126,7 +138,16 @@ fn command_set(r: &mut Rng) -> Vec<(u8, u16, bool, u32)> {
         last_kind = kind;
         let wide = r.bool();
         for _ in 0..r.range(1, 3) {
-            v.push((kind, if wide { r.range(0, 60000) as u16 } else { r.range(0, 250) as u16 }, wide, r.u32() % 30000));
+            v.push((
+                kind,
+                if wide {
+                    r.range(0, 60000) as u16
+                } else {
+                    r.range(0, 250) as u16
+                },
+                wide,
+                r.u32() % 30000,
+            ));
         }
     }
     v
@@ -137,8 +158,17 @@ fn viol(a: &ShardArgs, idx: u64, rule: &str, sig: &str, why: String, hist: &[Str
         P,
         &format!("C16.{rule}"),
         sig,
-        J::obj(vec![("why", J::s(why)), ("history", J::arr(hist.iter().cloned()))]),
-        J::obj(vec![("check", J::s("c16")), ("seed", J::U(a.seed)), ("shard", J::U(a.shard)), ("nshards", J::U(a.nshards)), ("scenario", J::U(idx))]),
+        J::obj(vec![
+            ("why", J::s(why)),
+            ("history", J::arr(hist.iter().cloned())),
+        ]),
+        J::obj(vec![
+            ("check", J::s("c16")),
+            ("seed", J::U(a.seed)),
+            ("shard", J::U(a.shard)),
+            ("nshards", J::U(a.nshards)),
+            ("scenario", J::U(idx)),
+        ]),
     );
 }
 
@@ -170,13 +200,31 @@ async fn echo_scenario(a: &ShardArgs, idx: u64) {
             settle().await;
             let reqs = requests(&sim.collect());
             if reqs.len() != 1 {
-                viol(a, idx, "harness_no_request", "command", format!("{} requests after submit", reqs.len()), &hist);
+                viol(
+                    a,
+                    idx,
+                    "harness_no_request",
+                    "command",
+                    format!("{} requests after submit", reqs.len()),
+                    &hist,
+                );
                 return;
             }
             let rq = reqs[0].3.clone();
-            let want_func = if sbo { ra::F_SELECT } else { ra::F_DIRECT_OPERATE };
+            let want_func = if sbo {
+                ra::F_SELECT
+            } else {
+                ra::F_DIRECT_OPERATE
+            };
             if rq[1] != want_func {
-                viol(a, idx, "wrong_function", if sbo { "sbo" } else { "do" }, format!("first request has function {}", rq[1]), &hist);
+                viol(
+                    a,
+                    idx,
+                    "wrong_function",
+                    if sbo { "sbo" } else { "do" },
+                    format!("first request has function {}", rq[1]),
+                    &hist,
+                );
             }
             let objs = rq[2..].to_vec();
             let muts = echo_mutations(&objs);
@@ -195,7 +243,12 @@ async fn echo_scenario(a: &ShardArgs, idx: u64) {
                 }
             }
             hist.clear();
-            hist.push(format!("{} {} {}", if sbo { "SBO" } else { "DO" }, hex(&rq), format!("{case:?}")));
+            hist.push(format!(
+                "{} {} {}",
+                if sbo { "SBO" } else { "DO" },
+                hex(&rq),
+                format!("{case:?}")
+            ));
             out::eval(1);
             let mut seq = rq[0] & 15;
             let mut expect_ok = true;
@@ -214,27 +267,69 @@ async fn echo_scenario(a: &ShardArgs, idx: u64) {
                 }
                 _ => (objs.clone(), 0),
             };
-            sim.send_from(OUT, &ra::B::response(ra::FIR | ra::FIN | seq, false, 0, iin2_0).raw(&body0).done());
+            sim.send_from(
+                OUT,
+                &ra::B::response(ra::FIR | ra::FIN | seq, false, 0, iin2_0)
+                    .raw(&body0)
+                    .done(),
+            );
             settle().await;
             let next = requests(&sim.collect());
             if sbo {
-                let operate: Vec<&Vec<u8>> = next.iter().map(|x| &x.3).filter(|f| f.len() >= 2 && f[1] == ra::F_OPERATE).collect();
+                let operate: Vec<&Vec<u8>> = next
+                    .iter()
+                    .map(|x| &x.3)
+                    .filter(|f| f.len() >= 2 && f[1] == ra::F_OPERATE)
+                    .collect();
                 if matches!(case, Some((_, 0))) {
                     if !operate.is_empty() {
-                        viol(a, idx, "operate_after_bad_select_echo", &label.split('/').next().unwrap_or("").to_string(), format!("OPERATE sent although the SELECT echo was not faithful ({label})"), &hist);
+                        viol(
+                            a,
+                            idx,
+                            "operate_after_bad_select_echo",
+                            &label.split('/').next().unwrap_or("").to_string(),
+                            format!(
+                                "OPERATE sent although the SELECT echo was not faithful ({label})"
+                            ),
+                            &hist,
+                        );
                     } else {
                         out::count("operate_withheld_ok", 1);
                     }
                 } else {
                     if operate.len() != 1 {
-                        viol(a, idx, "no_operate_after_select", "sbo", format!("{} OPERATE requests after a faithful SELECT echo", operate.len()), &hist);
+                        viol(
+                            a,
+                            idx,
+                            "no_operate_after_select",
+                            "sbo",
+                            format!(
+                                "{} OPERATE requests after a faithful SELECT echo",
+                                operate.len()
+                            ),
+                            &hist,
+                        );
                     } else {
                         let op = operate[0];
                         if op[0] & 15 != (seq + 1) & 15 {
-                            viol(a, idx, "operate_sequence", "sbo", format!("OPERATE sequence {} after SELECT {}", op[0] & 15, seq), &hist);
+                            viol(
+                                a,
+                                idx,
+                                "operate_sequence",
+                                "sbo",
+                                format!("OPERATE sequence {} after SELECT {}", op[0] & 15, seq),
+                                &hist,
+                            );
                         }
                         if op[2..] != objs[..] {
-                            viol(a, idx, "operate_objects_differ", "sbo", "OPERATE objects differ from the SELECT objects".into(), &hist);
+                            viol(
+                                a,
+                                idx,
+                                "operate_objects_differ",
+                                "sbo",
+                                "OPERATE objects differ from the SELECT objects".into(),
+                                &hist,
+                            );
                         } else {
                             out::count("operate_matches_select_ok", 1);
                         }
@@ -253,7 +348,12 @@ async fn echo_scenario(a: &ShardArgs, idx: u64) {
                             }
                             _ => (objs.clone(), 0),
                         };
-                        sim.send_from(OUT, &ra::B::response(ra::FIR | ra::FIN | seq, false, 0, iin2_1).raw(&body1).done());
+                        sim.send_from(
+                            OUT,
+                            &ra::B::response(ra::FIR | ra::FIN | seq, false, 0, iin2_1)
+                                .raw(&body1)
+                                .done(),
+                        );
                         settle().await;
                         let _ = sim.collect();
                     }
@@ -264,15 +364,37 @@ async fn echo_scenario(a: &ShardArgs, idx: u64) {
                 let _ = sim.collect();
             }
             let res = sim.result_of(id);
-            out::distinct(&format!("A/{}/{}", if sbo { "sbo" } else { "do" }, label.split('/').map(|x| x.trim_end_matches(char::is_numeric)).collect::<Vec<_>>().join("/")));
+            out::distinct(&format!(
+                "A/{}/{}",
+                if sbo { "sbo" } else { "do" },
+                label
+                    .split('/')
+                    .map(|x| x.trim_end_matches(char::is_numeric))
+                    .collect::<Vec<_>>()
+                    .join("/")
+            ));
             match res {
-                None => viol(a, idx, "no_outcome", "command", "command did not complete".into(), &hist),
+                None => viol(
+                    a,
+                    idx,
+                    "no_outcome",
+                    "command",
+                    "command did not complete".into(),
+                    &hist,
+                ),
                 Some((_, _, _, text)) => {
                     let ok = text.starts_with("Ok");
                     if ok && !expect_ok {
                         viol(a, idx, "success_on_unfaithful_echo", &format!("{}|{}", if sbo { "sbo" } else { "do" }, label.split('/').next().unwrap_or("").trim_end_matches(char::is_numeric)), format!("operate() returned Ok although the reply was not the faithful echo: {label}"), &hist);
                     } else if !ok && expect_ok {
-                        viol(a, idx, "failure_on_faithful_echo", if sbo { "sbo" } else { "do" }, format!("operate() returned {text} for a faithful echo"), &hist);
+                        viol(
+                            a,
+                            idx,
+                            "failure_on_faithful_echo",
+                            if sbo { "sbo" } else { "do" },
+                            format!("operate() returned {text} for a faithful echo"),
+                            &hist,
+                        );
                     } else if ok {
                         out::count("faithful_echo_ok", 1);
                     } else {
@@ -281,14 +403,24 @@ async fn echo_scenario(a: &ShardArgs, idx: u64) {
                 }
             }
             if sim.results_count(id) > 1 {
-                viol(a, idx, "two_outcomes", "command", "a request completed twice".into(), &hist);
+                viol(
+                    a,
+                    idx,
+                    "two_outcomes",
+                    "command",
+                    "a request completed twice".into(),
+                    &hist,
+                );
             }
         }
         out::count("catalogue_runs", 1);
         out::count("catalogue_mutations", n_mut as u64);
     }
     if out::sample_count() < 2 {
-        out::sample(J::obj(vec![("commands", J::s(format!("{cmds:?}"))), ("last", J::arr(hist.iter().cloned()))]));
+        out::sample(J::obj(vec![
+            ("commands", J::s(format!("{cmds:?}"))),
+            ("last", J::arr(hist.iter().cloned())),
+        ]));
     }
 }
 
@@ -330,7 +462,14 @@ fn faithful_reply(rq: &[u8]) -> Vec<u8> {
             let block = le32(&rq[12..16]) & 0x7FFF_FFFF;
             let mut o = vec![];
             o.extend_from_slice(&handle.to_le_bytes());
-            o.extend_from_slice(&(if block >= 1 { block | 0x8000_0000 } else { block }).to_le_bytes());
+            o.extend_from_slice(
+                &(if block >= 1 {
+                    block | 0x8000_0000
+                } else {
+                    block
+                })
+                .to_le_bytes(),
+            );
             o.extend_from_slice(&[b'a' + block as u8; 5]);
             free(5, o)
         }
@@ -347,13 +486,21 @@ fn faithful_reply(rq: &[u8]) -> Vec<u8> {
             o.extend_from_slice(name);
             free(7, o)
         }
-        ra::F_READ => ra::B { bytes: vec![] }.range8(30, 1, 0, 0, &[1, 5, 0, 0, 0]).bytes,
+        ra::F_READ => {
+            ra::B { bytes: vec![] }
+                .range8(30, 1, 0, 0, &[1, 5, 0, 0, 0])
+                .bytes
+        }
         ra::F_SELECT | ra::F_OPERATE | ra::F_DIRECT_OPERATE => rq[2..].to_vec(),
         ra::F_DELAY_MEASURE => ra::B { bytes: vec![] }.count8(52, 2, 1, &[0, 0]).bytes,
-        ra::F_COLD_RESTART | ra::F_WARM_RESTART => ra::B { bytes: vec![] }.count8(52, 2, 1, &[10, 0]).bytes,
+        ra::F_COLD_RESTART | ra::F_WARM_RESTART => {
+            ra::B { bytes: vec![] }.count8(52, 2, 1, &[10, 0]).bytes
+        }
         _ => vec![],
     };
-    ra::B::response(ra::FIR | ra::FIN | seq, false, 0, 0).raw(&body).done()
+    ra::B::response(ra::FIR | ra::FIN | seq, false, 0, 0)
+        .raw(&body)
+        .done()
 }
 
 #[derive(Clone, Copy, Debug, PartialEq)]
@@ -370,7 +517,14 @@ enum Fail {
 }
 
 /// Part B: every request kind x every step x every failure
-async fn failure_scenario(a: &ShardArgs, idx: u64, req: UserReq, kind: &str, step: usize, fail: Fail) {
+async fn failure_scenario(
+    a: &ShardArgs,
+    idx: u64,
+    req: UserReq,
+    kind: &str,
+    step: usize,
+    fail: Fail,
+) {
     let mut r = a.rng(&format!("c16b/{idx}"));
     let mut mc = MasterCfg::default();
     mc.decode = r.usize_below(108);
@@ -389,12 +543,23 @@ async fn failure_scenario(a: &ShardArgs, idx: u64, req: UserReq, kind: &str, ste
     loop {
         let rx = sim.collect();
         let reqs = requests(&rx);
-        let link_req = rx.iter().any(|x| matches!(x, Rx::Link { frame, .. } if frame.ctrl & 0x4F == rl_req_status()));
-        if sim.result_of(id).is_some() && !(matches!(req, UserReq::ReadFile(_)) && k == 3 && step == 3) {
+        let link_req = rx
+            .iter()
+            .any(|x| matches!(x, Rx::Link { frame, .. } if frame.ctrl & 0x4F == rl_req_status()));
+        if sim.result_of(id).is_some()
+            && !(matches!(req, UserReq::ReadFile(_)) && k == 3 && step == 3)
+        {
             break;
         }
         if reqs.is_empty() && !link_req {
-            viol(a, idx, "harness_no_request", kind, format!("no request on the wire at step {k}"), &hist);
+            viol(
+                a,
+                idx,
+                "harness_no_request",
+                kind,
+                format!("no request on the wire at step {k}"),
+                &hist,
+            );
             return;
         }
         if k == step && fail != Fail::None {
@@ -406,7 +571,11 @@ async fn failure_scenario(a: &ShardArgs, idx: u64, req: UserReq, kind: &str, ste
             sim.send_link(OUT, 0x0B);
         } else {
             let rq = &reqs[0].3;
-            hist.push(format!("t={} -> {} ; faithful reply", sim.now(), hex(&rq[..rq.len().min(24)])));
+            hist.push(format!(
+                "t={} -> {} ; faithful reply",
+                sim.now(),
+                hex(&rq[..rq.len().min(24)])
+            ));
             sim.send_from(OUT, &faithful_reply(rq));
         }
         settle().await;
@@ -432,14 +601,29 @@ async fn failure_scenario(a: &ShardArgs, idx: u64, req: UserReq, kind: &str, ste
                 sim.advance(t_r * 6 / 10).await;
                 match j % 3 {
                     0 => {
-                        let _ = sim.channel.set_decode_level(crate::decode::DecodeLevel::nothing()).await;
+                        let _ = sim
+                            .channel
+                            .set_decode_level(crate::decode::DecodeLevel::nothing())
+                            .await;
                     }
                     1 => {
-                        sim.send_from(OUT, &ra::B::response(ra::FIR | ra::FIN | ra::UNS | ra::CON | (j as u8), true, 0, 0).done());
+                        sim.send_from(
+                            OUT,
+                            &ra::B::response(
+                                ra::FIR | ra::FIN | ra::UNS | ra::CON | (j as u8),
+                                true,
+                                0,
+                                0,
+                            )
+                            .done(),
+                        );
                     }
                     _ => {
                         // a stale response
-                        sim.send_from(OUT, &ra::B::response(ra::FIR | ra::FIN | 9, false, 0, 0).done());
+                        sim.send_from(
+                            OUT,
+                            &ra::B::response(ra::FIR | ra::FIN | 9, false, 0, 0).done(),
+                        );
                     }
                 }
                 settle().await;
@@ -459,7 +643,10 @@ async fn failure_scenario(a: &ShardArgs, idx: u64, req: UserReq, kind: &str, ste
             bound = 1;
         }
         Fail::RemoveAssociationThenReply => {
-            let _ = sim.channel.remove_association(crate::link::EndpointAddress::try_new(OUT).unwrap()).await;
+            let _ = sim
+                .channel
+                .remove_association(crate::link::EndpointAddress::try_new(OUT).unwrap())
+                .await;
             settle().await;
             if let Some(rq) = last_request.as_ref() {
                 sim.send_from(OUT, &faithful_reply(rq));
@@ -469,7 +656,10 @@ async fn failure_scenario(a: &ShardArgs, idx: u64, req: UserReq, kind: &str, ste
             bound = t_r + 1;
         }
         Fail::RemoveAssociation => {
-            let _ = sim.channel.remove_association(crate::link::EndpointAddress::try_new(OUT).unwrap()).await;
+            let _ = sim
+                .channel
+                .remove_association(crate::link::EndpointAddress::try_new(OUT).unwrap())
+                .await;
             settle().await;
             // the outstanding step still runs to its timeout at worst
             sim.advance(t_r).await;
@@ -478,30 +668,73 @@ async fn failure_scenario(a: &ShardArgs, idx: u64, req: UserReq, kind: &str, ste
     }
     let _ = sim.collect();
     let res = sim.result_of(id);
-    hist.push(format!("t={} result {:?}", sim.now(), res.as_ref().map(|x| x.3.clone())));
+    hist.push(format!(
+        "t={} result {:?}",
+        sim.now(),
+        res.as_ref().map(|x| x.3.clone())
+    ));
     match res {
-        None => viol(a, idx, "no_outcome", &format!("{kind}|step{step}|{fail:?}"), format!("request unresolved {} ms after the failure (bound {bound})", sim.now() - t_fail), &hist),
+        None => viol(
+            a,
+            idx,
+            "no_outcome",
+            &format!("{kind}|step{step}|{fail:?}"),
+            format!(
+                "request unresolved {} ms after the failure (bound {bound})",
+                sim.now() - t_fail
+            ),
+            &hist,
+        ),
         Some((_, t_done, _, text)) => {
             // which outcome each failure produces (evidence)
-            out::distinct(&format!("outcome/{kind}/{fail:?}/{}", text.chars().filter(|c| c.is_alphabetic() || *c == '(').take(48).collect::<String>()));
+            out::distinct(&format!(
+                "outcome/{kind}/{fail:?}/{}",
+                text.chars()
+                    .filter(|c| c.is_alphabetic() || *c == '(')
+                    .take(48)
+                    .collect::<String>()
+            ));
             let trailing_step = matches!(req, UserReq::ReadFile(_)) && step == 3;
             if trailing_step {
                 // the file was delivered completely before the CLOSE went out: whatever happens to the CLOSE, the one
                 // terminal callback was `completed`
                 if !text.starts_with("Ok") {
-                    viol(a, idx, "file_completed_then_failed", kind, format!("all blocks were delivered but the terminal callback is {text}"), &hist);
+                    viol(
+                        a,
+                        idx,
+                        "file_completed_then_failed",
+                        kind,
+                        format!("all blocks were delivered but the terminal callback is {text}"),
+                        &hist,
+                    );
                 } else {
                     out::count("file_close_failure_after_completion_ok", 1);
                 }
             } else if fail == Fail::None {
                 if !text.starts_with("Ok") {
-                    viol(a, idx, "faithful_exchange_failed", kind, format!("all steps answered faithfully but the result is {text}"), &hist);
+                    viol(
+                        a,
+                        idx,
+                        "faithful_exchange_failed",
+                        kind,
+                        format!("all steps answered faithfully but the result is {text}"),
+                        &hist,
+                    );
                 } else {
                     out::count("faithful_exchange_ok", 1);
                 }
             } else {
                 if text.starts_with("Ok") {
-                    viol(a, idx, "success_despite_failure", &format!("{kind}|{fail:?}"), format!("request reported {text} although step {step} failed with {fail:?}"), &hist);
+                    viol(
+                        a,
+                        idx,
+                        "success_despite_failure",
+                        &format!("{kind}|{fail:?}"),
+                        format!(
+                            "request reported {text} although step {step} failed with {fail:?}"
+                        ),
+                        &hist,
+                    );
                 }
                 if t_done > t_fail + bound {
                     viol(a, idx, "outcome_too_late", &format!("{kind}|{fail:?}"), format!("request resolved {} ms after the failure point (bound {bound} ms): {text}", t_done - t_fail), &hist);
@@ -512,11 +745,25 @@ async fn failure_scenario(a: &ShardArgs, idx: u64, req: UserReq, kind: &str, ste
         }
     }
     if sim.results_count(id) > 1 {
-        viol(a, idx, "two_outcomes", kind, "a request completed twice".into(), &hist);
+        viol(
+            a,
+            idx,
+            "two_outcomes",
+            kind,
+            "a request completed twice".into(),
+            &hist,
+        );
     }
     let _ = t_start;
     for p in crate::verif::util::take_panics() {
-        viol(a, idx, "panic", &crate::verif::util::norm_location(&p.location), format!("panic {} at {}", p.message, p.location), &hist);
+        viol(
+            a,
+            idx,
+            "panic",
+            &crate::verif::util::norm_location(&p.location),
+            format!("panic {} at {}", p.message, p.location),
+            &hist,
+        );
     }
     if a.replay.is_some() {
         for l in crate::verif::trace::tail(60) {
@@ -551,7 +798,11 @@ async fn queue_scenario(a: &ShardArgs, idx: u64) {
     }
     out::eval(1);
     // the extras must fail at once
-    let immediate: Vec<String> = ids.iter().filter_map(|i| sim.result_of(*i)).map(|x| x.3).collect();
+    let immediate: Vec<String> = ids
+        .iter()
+        .filter_map(|i| sim.result_of(*i))
+        .map(|x| x.3)
+        .collect();
     if immediate.len() != 2 || !immediate.iter().all(|t| t.contains("TooManyRequests")) {
         viol(a, idx, "queue_full", "extras", format!("with max_queued_user_requests={maxq}, one outstanding and {} more submitted: immediate results {immediate:?}", maxq + 2), &hist);
     } else {
@@ -561,7 +812,14 @@ async fn queue_scenario(a: &ShardArgs, idx: u64) {
     sim.advance(100 * (maxq as u64 + 2) + 10).await;
     let unresolved = ids.iter().filter(|i| sim.result_of(**i).is_none()).count();
     if unresolved > 0 {
-        viol(a, idx, "no_outcome", "queued", format!("{unresolved} queued requests unresolved after all timeouts"), &hist);
+        viol(
+            a,
+            idx,
+            "no_outcome",
+            "queued",
+            format!("{unresolved} queued requests unresolved after all timeouts"),
+            &hist,
+        );
     } else {
         out::count("queued_all_resolved_ok", 1);
     }
@@ -570,21 +828,39 @@ async fn queue_scenario(a: &ShardArgs, idx: u64) {
     let id = sim.submit(0, UserReq::ColdRestart);
     settle().await;
     match sim.result_of(id) {
-        Some((_, _, _, t)) if t.contains("NoConnection") => out::count("no_connection_rejected_ok", 1),
-        other => viol(a, idx, "no_connection", "submit", format!("request submitted while disconnected: {other:?}"), &hist),
+        Some((_, _, _, t)) if t.contains("NoConnection") => {
+            out::count("no_connection_rejected_ok", 1)
+        }
+        other => viol(
+            a,
+            idx,
+            "no_connection",
+            "submit",
+            format!("request submitted while disconnected: {other:?}"),
+            &hist,
+        ),
     }
     out::distinct(&format!("Q/maxq{maxq}"));
 }
 
 pub fn run(a: &ShardArgs) -> Result<(), String> {
-    let only: Option<u64> = a.replay.as_ref().and_then(|p| super::common::replay_scenario(p));
+    let only: Option<u64> = a
+        .replay
+        .as_ref()
+        .and_then(|p| super::common::replay_scenario(p));
     // Part A
     let na = a.n(96);
     // Part B: enumeration
     let kinds: Vec<(UserReq, &str)> = vec![
         (UserReq::ReadClasses([true, true, false, false]), "read"),
-        (UserReq::Command(false, vec![(0, 3, false, 7)]), "direct-operate"),
-        (UserReq::Command(true, vec![(2, 300, true, 9), (2, 301, true, 10)]), "select-operate"),
+        (
+            UserReq::Command(false, vec![(0, 3, false, 7)]),
+            "direct-operate",
+        ),
+        (
+            UserReq::Command(true, vec![(2, 300, true, 9), (2, 301, true, 10)]),
+            "select-operate",
+        ),
         (UserReq::TimeSync(0), "time-lan"),
         (UserReq::TimeSync(1), "time-nonlan"),
         (UserReq::TimeSync(2), "time-direct"),
@@ -594,9 +870,20 @@ pub fn run(a: &ShardArgs) -> Result<(), String> {
         (UserReq::LinkStatus, "link-status"),
         (UserReq::ReadFile(64), "read-file"),
         (UserReq::GetFileInfo, "get-file-info"),
-        (UserReq::EmptyResponse(ra::F_RECORD_CURRENT_TIME), "empty-response"),
+        (
+            UserReq::EmptyResponse(ra::F_RECORD_CURRENT_TIME),
+            "empty-response",
+        ),
     ];
-    let fails = [Fail::None, Fail::ReplyLost, Fail::ReplyLostWithChatter, Fail::LinkError, Fail::Disable, Fail::RemoveAssociation, Fail::RemoveAssociationThenReply];
+    let fails = [
+        Fail::None,
+        Fail::ReplyLost,
+        Fail::ReplyLostWithChatter,
+        Fail::LinkError,
+        Fail::Disable,
+        Fail::RemoveAssociation,
+        Fail::RemoveAssociationThenReply,
+    ];
     let mut b_cases: Vec<(UserReq, &str, usize, Fail)> = vec![];
     for (rq, kind) in &kinds {
         for step in 0..steps_of(rq) {
